@@ -102,6 +102,10 @@ pub fn exec_case(case: &Case) -> Outcome {
         o.nontrivial = true;
         o.label("stress-family");
     }
+    if case.params.contains_key("stress_mutated") {
+        o.nontrivial = true;
+        o.label("stress-family-mutated");
+    }
     o
 }
 
@@ -332,6 +336,30 @@ pub fn stress_family() -> Vec<(String, Case)> {
         v.push(stress("v7-count-65535-short", vec![enc_fixed(7, 65535, &[1; 20], &vec![vec![7u8; 52]; 3])]));
     }
     v
+}
+
+/// a stress-family case with 1..3 hostile mutations applied to its buffers: datagram-sized
+/// hostile input (the random generators stay below a few KiB)
+pub fn stress_mut_case() -> proptest::strategy::BoxedStrategy<Case> {
+    use proptest::prelude::*;
+    let fam: std::sync::Arc<Vec<(String, Case)>> = std::sync::Arc::new(stress_family());
+    let n = fam.len();
+    (0..n, proptest::collection::vec((any::<u8>(), crate::gen::mutation()), 1..=3), crate::gen::allowed_set())
+        .prop_map(move |(i, muts, allowed)| {
+            let mut c = fam[i].1.clone();
+            c.params.remove("stress");
+            c.params.insert("stress_mutated".into(), i as i64);
+            let mut bufs: Vec<Vec<u8>> = c.calls.iter().map(|x| x.buf()).collect();
+            for (ci, m) in &muts {
+                let k = (*ci as usize * bufs.len()) >> 8;
+                crate::gen::apply_mut(&mut bufs[k], m);
+                bufs[k].truncate(65535);
+            }
+            c.calls = bufs.into_iter().map(Call::one).collect();
+            c.allowed = vec![allowed];
+            c
+        })
+        .boxed()
 }
 
 // ---------------------------------------------------------------------------------------
@@ -756,6 +784,8 @@ pub fn run(ctx: &Ctx) {
         run_explicit(ctx, "witness", p, &wit, &dir);
         run_explicit(ctx, "stress", p, &fam, &dir);
     }
+    run_search(ctx, "stressmut", "release", ctx.n(480, 20_000), &dir);
+    run_search(ctx, "stressmut", "o0", ctx.n(160, 6_000), &dir);
     run_search(ctx, "hostile", "release", ctx.n(400_000, 40_000_000), &dir);
     run_search(ctx, "conformant", "release", ctx.n(80_000, 8_000_000), &dir);
     run_search(ctx, "hostile", "o0", ctx.n(50_000, 8_000_000), &dir);
